@@ -341,7 +341,17 @@ static void run_script(char **lines, int nlines)
 		else if (!strcmp(op, "VCHILD") || !strcmp(op, "VPARENT")) {
 			/* both the child and (later) the parent come back from vfork at plthook_return */
 			fake_pid = op[1] == 'C' ? (pid_t)syscall(SYS_getpid) + 100000 : 0;
-			if (follow((unsigned long)plthook_return, &target, &pops) < 0)
+			if (op[1] == 'P') {
+				/* the child may have left an empty shadow stack: restore_vfork() copes with that */
+				long rv[4] = { 0, 0, 0, 0 };
+				unsigned long v;
+				tick();
+				v = plthook_exit(rv);
+				if (follow(v, &target, &pops) < 0)
+					return;
+				pops++;
+			}
+			else if (follow((unsigned long)plthook_return, &target, &pops) < 0)
 				return;
 		}
 		else if (!strcmp(op, "RET")) {
